@@ -24,6 +24,8 @@ PREFIXES = ["", "/a", "/a/b", "/ab", "/b", "/é"]
 PATHS = ["", "/", "/a", "/a/", "/ab", "/abc", "/a/b", "/a/b/", "/a/b/c", "/a/bc", "/b/a", "a", "/é", "/é/ü", "/éa", "/a//b", "/a/x\ny", "/x\n"]
 ROOTS = ["", "/r", "/r/", "/"]
 HOST_PATTERNS = [r"a\.com", r"(www\.)?a\.com", r"a.com", r".*", r"a\.com|b\.com", r"caf.\.com", r"(\w+)\.\1\.com", r"(?P<t>x)?a\.com(?(t)y|)"]  # the last two: a numbered back-reference, a named group with a conditional
+CLASS_PATTERNS = [r"caf\w\.com", r"(?i)CAF\xc9\.COM", r"caf\W\.com", r"caf\S\.com", r"caf\s\.com", r"\w+\.com", r"caf\xe9\b\.com", r"caf[^\W\d]\.com", r"(?i)caf[\xc0-\xde]\.com"]
+CLASS_HOSTS = ["caf\xe9.com", "caf\xc3\xa9.com", "CAF\xc9.COM", "caf\xa0.com", "caf\xb2.com", "caf\xd7.com", "cafe.com", "caf\x85.com", "caf\xe9.COM", "caf\xff.com", "caf\xb5.com"]
 LONGW = "a" * 130
 HOSTS = [LONGW + "." + LONGW + ".com", LONGW + ".b" + LONGW[1:] + ".com", "x" * 300, "eu.eu.com", "eu.us.com", "xa.comy", "xa.com", "a.comy", "a.com", "www.a.com", "aXcom", "a.com.evil", "a.com:80", "A.COM", "", None, "a.com\n", "b.com", "b.com.evil", "www.a.comx", "caf\xe9.com", "caf\xc3\xa9.com"]
 
@@ -46,6 +48,27 @@ def host_ref(pattern, h):
         return len(parts) == 3 and parts[2] == "com" and parts[0] == parts[1] and parts[0] != "" and all(c.isalnum() or c == "_" for c in parts[0])
     if pattern == r"(?P<t>x)?a\.com(?(t)y|)":
         return h in ("xa.comy", "a.com")
+    word = lambda c: c.isalnum() or c == "_"
+    mid = h[3] if len(h) == 8 else ""
+    framed = len(h) == 8 and h[:3] == "caf" and h[4:] == ".com"
+    if pattern == r"caf\w\.com":
+        return framed and word(mid)
+    if pattern == r"(?i)CAF\xc9\.COM":
+        return len(h) == 8 and h[:3].lower() == "caf" and h[3] in "\xc9\xe9" and h[4:].lower() == ".com"
+    if pattern == r"caf\W\.com":
+        return framed and not word(mid)
+    if pattern == r"caf\S\.com":
+        return framed and not mid.isspace()
+    if pattern == r"caf\s\.com":
+        return framed and mid.isspace()
+    if pattern == r"\w+\.com":
+        return h.endswith(".com") and len(h) > 4 and all(word(c) for c in h[:-4])
+    if pattern == r"caf\xe9\b\.com":
+        return h == "caf\xe9.com"
+    if pattern == r"caf[^\W\d]\.com":
+        return framed and word(mid) and not mid.isdecimal()
+    if pattern == r"(?i)caf[\xc0-\xde]\.com":
+        return len(h) == 8 and h[:3].lower() == "caf" and h[4:].lower() == ".com" and any("\xc0" <= c <= "\xde" for c in (h[3], h[3].upper(), h[3].lower()) if len(c) == 1)
     raise KeyError(pattern)
 
 
@@ -251,6 +274,14 @@ def run_shard(desc, tier):
                 log = []
                 app = mod.Hosts(*[(p, leaf(iface, [i], log)) for i, p in enumerate(table)])
                 for h in HOSTS + HOSTS[::-1]:
+                    judge_host(r, iface, app, table, log, h)
+        # patterns that lean on character classes, word boundaries and case folding, on Host values whose bytes are Latin-1
+        # letters, digits-like signs and blanks: a pattern is text and the header is read as text, on both interfaces alike
+        for n in (1, 2):
+            for table in itertools.product(CLASS_PATTERNS, repeat=n):
+                log = []
+                app = mod.Hosts(*[(p, leaf(iface, [i], log)) for i, p in enumerate(table)])
+                for h in CLASS_HOSTS:
                     judge_host(r, iface, app, table, log, h)
         r.sample({"iface": iface, "host_table": list(table), "host": "a.com.evil"})
     return r
